@@ -341,7 +341,13 @@ func runPool(t *testing.T, c poolCase) (out outcome, err error) {
 
 func genCase(rt *rapid.T) poolCase {
 	c := poolCase{}
-	n := rapid.IntRange(0, 4).Draw(rt, "ninit")
+	// one case in four is a LARGE pool (dozens of members: whatever the pool does about its own growth - a bigger
+	// backing array, compaction of ended members - happens only there)
+	maxInit, maxOps, maxI := 4, 10, 7
+	if rapid.IntRange(0, 3).Draw(rt, "large") == 0 {
+		maxInit, maxOps, maxI = 40, 70, 99
+	}
+	n := rapid.IntRange(0, maxInit).Draw(rt, "ninit")
 	for i := 0; i < n; i++ {
 		c.Init = append(c.Init, rapid.IntRange(0, 3).Draw(rt, "initEnded") == 0)
 		nv := 0
@@ -350,11 +356,11 @@ func genCase(rt *rapid.T) poolCase {
 		}
 		c.InitNever = append(c.InitNever, nv)
 	}
-	nops := rapid.IntRange(0, 10).Draw(rt, "nops")
+	nops := rapid.IntRange(0, maxOps).Draw(rt, "nops")
 	for i := 0; i < nops; i++ {
 		switch rapid.IntRange(0, 9).Draw(rt, "kind") {
 		case 0, 1, 2:
-			c.Ops = append(c.Ops, op{Kind: "end", I: rapid.IntRange(0, 7).Draw(rt, "i")})
+			c.Ops = append(c.Ops, op{Kind: "end", I: rapid.IntRange(0, maxI).Draw(rt, "i")})
 		case 3, 4, 5:
 			o := op{Kind: "add", Ended: rapid.IntRange(0, 3).Draw(rt, "ended") == 0}
 			if rapid.IntRange(0, 5).Draw(rt, "never") == 0 {
@@ -364,7 +370,7 @@ func genCase(rt *rapid.T) poolCase {
 		case 6:
 			c.Ops = append(c.Ops, op{Kind: "size"})
 		case 7, 8:
-			c.Ops = append(c.Ops, op{Kind: "race", I: rapid.IntRange(0, 7).Draw(rt, "i")})
+			c.Ops = append(c.Ops, op{Kind: "race", I: rapid.IntRange(0, maxI).Draw(rt, "i")})
 		default:
 			c.Ops = append(c.Ops, op{Kind: rapid.SampledFrom([]string{"cancel", "cancel+add"}).Draw(rt, "cancelKind")})
 		}
